@@ -3,9 +3,9 @@
 # property (or "id:Cxx,Cyy" to name checks), on a scratch checkout of /repo's HEAD, from a
 # copy of /verif under /dev/shm, so that neither /repo nor /verif is touched.
 tier="$1"; shift
-V=/dev/shm/vsweep
+V=/dev/shm/vsweep${SWEEP_TAG:-}
 rm -rf $V && rsync -a --exclude .git --exclude replays --exclude .bin /verif/ $V/ && sed -i "s#^cd /verif#cd $V#" $V/tools/mutcheck.sh
-export MUT_REPO=/tmp/repo-sweep
+export MUT_REPO=/tmp/repo-sweep${SWEEP_TAG:-}
 [ -d $MUT_REPO ] || git -C /repo worktree add --detach $MUT_REPO HEAD >/dev/null 2>&1
 git -C $MUT_REPO checkout -q --detach $(git -C /repo rev-parse HEAD); git -C $MUT_REPO checkout -- .; git -C $MUT_REPO clean -fdq
 for spec in "$@"; do
